@@ -41,7 +41,7 @@ class CoreSummaries:
     def init_ghost(self, st):
         st.ghost['emitted'] = VSeq(z3.Empty(sym.SeqElemS), K_ELEM)
         st.ghost['emitted_md'] = VSeq(z3.Empty(sym.SeqSeqMdS), K_MD)
-        st.ghost['emit_rets'] = VTuple([])
+        st.ghost['emit_rets'] = VSeq(z3.Empty(z3.SeqSort(sym.SeqAwS)), sym.K_AWS)
         st.ghost['delta'] = VInt(0)
         st.ghost['emit_raised'] = VBool(False)
         st.ghost['_snaps'] = []
@@ -56,6 +56,7 @@ class CoreSummaries:
             I.oblige('emit.metadata_is_None_or_flat_list_of_dicts', False, kind='callsite',
                      note='the metadata handed to _emit is neither None nor a flat list of dictionaries: %r' % (md,))
             I.st.obligations[-1].props = ['C10', 'C05']
+            I.st.obligations[-1].replay = {'kind': 'metadata_shape', 'when': 'any'}
             mdt = z3.Const(sym.fresh_name('md_any'), sym.SeqMdS)
         g = I.st.ghost
         g['emitted'] = VSeq(z3.Concat(g['emitted'].t, z3.Unit(I.as_elem(x))), K_ELEM)
@@ -67,10 +68,10 @@ class CoreSummaries:
             rb = z3.Bool(sym.fresh_name('emit_raises'))
             if I.branch(rb):
                 g['emit_raised'] = VBool(True)
-                I.st.events.append({'kind': 'emit_raise', 'index': len(g['emit_rets'].items)})
+                I.st.events.append({'kind': 'emit_raise', 'index': z3.Length(g['emit_rets'].t)})
                 raise PyRaise(VExc('DownstreamError'))
         ret = z3.Const(sym.fresh_name('emit_ret'), sym.SeqAwS)
-        g['emit_rets'] = VTuple(g['emit_rets'].items + [VSeq(ret, K_AW)])
+        g['emit_rets'] = VSeq(z3.Concat(g['emit_rets'].t, z3.Unit(ret)), sym.K_AWS)
         return I.st.new_list(ret, K_AW)
 
     # ---- Stream._retain_refs / _release_refs  (effect on the skolem counter R)
@@ -100,6 +101,7 @@ class CoreSummaries:
             I.oblige('release_only_what_is_held', held0 + g['delta'].t >= 0, kind='callsite',
                      note='B2: own holds (held at entry + own retains - own releases) would become negative')
             I.st.obligations[-1].props = ['C05', 'C04', 'C16']
+            I.st.obligations[-1].replay = {'kind': 'release_only_what_is_held', 'when': 'any', 'held': self.held_text}
         return NONE
 
     def s_retain(self, I, recv, args, kwargs):
@@ -108,8 +110,21 @@ class CoreSummaries:
     def s_release(self, I, recv, args, kwargs):
         return self._refs_effect(I, args, kwargs, -1)
 
+    held_text = None
+
     def held(self, I, st):
-        return z3.IntVal(0)
+        """Abstraction function: how many holds on the counter R the node legitimately keeps in state st."""
+        if not self.held_text:
+            return z3.IntVal(0)
+        from pyvc.interp import Frame
+        fr = Frame(self.qual + '.<held>')
+        fr.locals.update(self.pre_args)
+        cur = I.st
+        I.st = st
+        try:
+            return I.num(I.eval_spec(self.held_text, fr))
+        finally:
+            I.st = cur
 
     def core_summaries(self):
         return {'Stream._emit': self.s_emit, 'Stream._retain_refs': self.s_retain,
@@ -203,7 +218,7 @@ class NodeUpdate(CoreSummaries, Contract):
     file = CORE
     cls = None
     method = 'update'
-    harness = 'node_update'
+    harness = 'node_harness'
     data_fields = ()            # fields that make up the node's data state (frame / re-entrancy clauses)
 
     def __init__(self):
@@ -249,7 +264,7 @@ class NodeUpdate(CoreSummaries, Contract):
         return selfv, [x], {'who': who, 'metadata': md}
 
     def requires(self, I, selfv, x, who, md):
-        pass
+        I.st.assume(who.t != z3.Const('self_ref', sym.Obj))
 
     # -- generic clauses -------------------------------------------------
     def frame_clause(self, fields=None):
@@ -289,11 +304,13 @@ class NodeUpdate(CoreSummaries, Contract):
         return fn
 
     def standard_clauses(self, passthrough=True):
+        rp = {'held': self.held_text, 'data_fields': list(self.data_fields)}
         cl = [
-            Clause('C05.balance', ['C05', 'C04'], fn=self.balance_clause(), when='return',
+            Clause('C05.balance', ['C05', 'C04'], fn=self.balance_clause(), when='return', kind='balance', replay=rp,
                    note='own ref-count effect == held(post) - held(pre)'),
-            Clause('C05.balance_on_raise', ['C05', 'C16'], fn=self.balance_clause(), when='raise:DownstreamError'),
-            Clause('C01.reentrancy', ['C01'], fn=self.reentrancy_clause(), when='return',
+            Clause('C05.balance_on_raise', ['C05', 'C16'], fn=self.balance_clause(), when='raise:DownstreamError',
+                   kind='balance', replay=rp),
+            Clause('C01.reentrancy', ['C01'], fn=self.reentrancy_clause(), when='return', kind='reentrancy', replay=rp,
                    note='state is final before every emission'),
         ]
         return cl
@@ -317,7 +334,7 @@ class NodeUpdate(CoreSummaries, Contract):
                                'result': d.elem(ev['result']) if not ev['raised'] else None,
                                'truthy': d.truthy(ev['result']) if not ev['raised'] else None})
             elif ev['kind'] == 'emit_raise':
-                script.append({'kind': 'emit_raise', 'index': ev['index']})
+                script.append({'kind': 'emit_raise', 'index': d.int(ev['index'])})
         return {'harness': self.harness, 'class': self.cls, 'method': self.method, 'fields': fields,
                 'x': d.elem(self.pre_args['x'].t), 'metadata': d.md(self.pre_args['metadata'].t),
                 'who': d.obj(self.pre_args['who'].t), 'self_ref': d.obj(z3.Const('self_ref', sym.Obj)),
